@@ -142,6 +142,21 @@ func (c *Ctx) resolvePair(fn *ssa.Function, a, b ssa.Value, depth int) (pairs []
 	return pairs, "parameters of " + fn.Name() + " resolved at its call sites", true
 }
 
+// resolvePairAt resolves (a, b) of fn for the single caller site s.
+func (c *Ctx) resolvePairAt(fn *ssa.Function, s ssa.CallInstruction, a, b ssa.Value) ([]strPair, string, bool) {
+	sub := func(v ssa.Value) ssa.Value {
+		if p, ok := strip(v).(*ssa.Parameter); ok {
+			for i, q := range fn.Params {
+				if q == p && i < len(s.Common().Args) {
+					return s.Common().Args[i]
+				}
+			}
+		}
+		return v
+	}
+	return c.resolvePair(s.Parent(), sub(a), sub(b), 2)
+}
+
 // callSitesOf lists static call sites of fn in repository code and reports
 // whether fn is also used as a value (then the list is incomplete).
 func (c *Ctx) callSitesOf(fn *ssa.Function) (sites []ssa.CallInstruction, escapes bool) {
@@ -194,6 +209,25 @@ func (c *Ctx) resolveRPC() {
 				site.Local = true
 			}
 			pairs, via, ok := c.resolvePair(f, args[pos[1]], args[pos[1]+1], 3)
+			if ok && via != "constants" {
+				// context: which targets are reached when f is entered
+				// through a particular call site
+				sites, _ := c.callSitesOf(f)
+				for _, s := range sites {
+					sub, _, ok2 := c.resolvePairAt(f, s, args[pos[1]], args[pos[1]+1])
+					if !ok2 {
+						continue
+					}
+					for _, p := range sub {
+						if m := c.rpcMethod(p.a, p.b); m != nil {
+							if c.rpcCtx[ci] == nil {
+								c.rpcCtx[ci] = map[ssa.CallInstruction][]*ssa.Function{}
+							}
+							c.rpcCtx[ci][s] = append(c.rpcCtx[ci][s], m)
+						}
+					}
+				}
+			}
 			if ok {
 				site.Resolved = true
 				seen := map[strPair]bool{}
@@ -265,7 +299,7 @@ type reachOpt struct {
 }
 
 // succs returns the callees of f: VTA edges plus stitched RPC targets.
-func (c *Ctx) succs(f *ssa.Function, opt reachOpt) []calleeEdge {
+func (c *Ctx) succs(f *ssa.Function, opt reachOpt, entry ...ssa.CallInstruction) []calleeEdge {
 	var out []calleeEdge
 	n := c.P.CG.Nodes[f]
 	if n != nil {
@@ -289,6 +323,11 @@ func (c *Ctx) succs(f *ssa.Function, opt reachOpt) []calleeEdge {
 			if opt.skipSit != nil && opt.skipSit(ci) {
 				continue
 			}
+			if m := c.rpcCtx[ci]; m != nil && len(entry) == 1 && entry[0] != nil {
+				if cts, ok := m[entry[0]]; ok {
+					ts = cts
+				}
+			}
 			for _, t := range ts {
 				out = append(out, calleeEdge{ci, t})
 			}
@@ -296,6 +335,12 @@ func (c *Ctx) succs(f *ssa.Function, opt reachOpt) []calleeEdge {
 	}
 	return out
 }
+
+// depBudget bounds how many consecutive dependency frames a path may cross
+// before re-entering repository code (call-backs such as sort.Slice, mux
+// handlers, sync.Once). VTA merges function values of one type inside
+// dependency plumbing, so unbounded traversal yields spurious paths.
+const depBudget = 3
 
 type calleeEdge struct {
 	Site   ssa.CallInstruction
@@ -312,6 +357,7 @@ func (c *Ctx) pathTo(from *ssa.Function, isSink func(f *ssa.Function, site ssa.C
 		f    *ssa.Function
 		prev *item
 		site ssa.CallInstruction
+		dep  int // consecutive dependency frames
 	}
 	seen := map[*ssa.Function]bool{from: true}
 	work := []*item{{f: from}}
@@ -321,7 +367,10 @@ func (c *Ctx) pathTo(from *ssa.Function, isSink func(f *ssa.Function, site ssa.C
 		if opt.stopAt != nil && cur.prev != nil && opt.stopAt(cur.f) {
 			continue
 		}
-		for _, e := range c.succs(cur.f, opt) {
+		if cur.dep > depBudget {
+			continue
+		}
+		for _, e := range c.succs(cur.f, opt, cur.site) {
 			if isSink(e.Callee, e.Site) {
 				var path []string
 				path = append(path, e.Callee.String())
@@ -338,7 +387,13 @@ func (c *Ctx) pathTo(from *ssa.Function, isSink func(f *ssa.Function, site ssa.C
 				continue
 			}
 			seen[e.Callee] = true
-			work = append(work, &item{f: e.Callee, prev: cur, site: e.Site})
+			dep := 0
+			if !isRepoFn(e.Callee) && e.Callee.Synthetic == "" {
+				dep = cur.dep + 1
+			} else if !isRepoFn(e.Callee) {
+				dep = cur.dep
+			}
+			work = append(work, &item{f: e.Callee, prev: cur, site: e.Site, dep: dep})
 		}
 	}
 	return nil
